@@ -5,6 +5,8 @@ From ZT Require Import Base Layers Run.
 Inductive bstep :=
 | BStart | BDeco
 | BWrite (tok : nat)            (* the test writes a token to sys.stdout / sys.stderr *)
+| BReinstall                    (* test code puts back the sys.stdout it saved at the start of the test (the capture
+                                   stream under --buffer): e.g. on leaving contextlib.redirect_stdout *)
 | BRes (r : rkind)
 | BStop.
 
@@ -26,8 +28,10 @@ Definition reports (r : rkind) : bool :=
 Section B.
 Variable buffer : bool.        (* --buffer *)
 
+(* _restoreStdStreams: with --buffer, whatever stream is installed, hand over what the capture buffers hold,
+   empty them and put the original streams back *)
 Definition restore (s : bstate) : bstate * option (list nat) :=
-  if buffer && cur s then ({| cur := false; buf := []; log := log s; boundary_ok := boundary_ok s |}, Some (buf s))
+  if buffer then ({| cur := false; buf := []; log := log s; boundary_ok := boundary_ok s |}, Some (buf s))
   else (s, None).
 
 Definition bstep_apply (t : nat) (s : bstate) (x : bstep) : bstate :=
@@ -38,6 +42,7 @@ Definition bstep_apply (t : nat) (s : bstate) (x : bstep) : bstate :=
   | BWrite tok =>
     if cur s then {| cur := true; buf := buf s ++ [tok]; log := log s; boundary_ok := boundary_ok s |}
     else {| cur := false; buf := buf s; log := log s ++ [Direct tok]; boundary_ok := boundary_ok s |}
+  | BReinstall => {| cur := buffer; buf := buf s; log := log s; boundary_ok := boundary_ok s |}
   | BRes r =>
     let '(s1, captured) := restore s in
     if reports r then {| cur := cur s1; buf := buf s1; log := log s1 ++ [Report t captured]; boundary_ok := boundary_ok s1 |}
